@@ -104,7 +104,7 @@ theorem firstMatch_nonempty {ops : List (List Char)} {cs o : List Char} (h : fir
   have := List.find?_some h
   intro e; subst e; simp at this
 
-theorem flush_nonempty {w : List Char} (h : w ≠ []) : flush w = [String.ofList w] := by
+theorem flush_of_nonempty {w : List Char} (h : w ≠ []) : flush w = [String.ofList w] := by
   cases w with
   | nil => exact absurd rfl h
   | cons c w => simp [flush]
@@ -124,7 +124,7 @@ theorem scan_render_gen (ops : List (List Char)) (hsp : NoSpaceOp ops) : ∀ (ts
     obtain ⟨hne, hsw, hnm, hng, hvr⟩ := hv
     have ih := scan_render_gen ops hsp rest tr w hvr (fun _ => hng)
     have key : scan ops (w ++ render rest tr) 0 [] = String.ofList w :: rest.map (fun p => p.2.str) := by
-      rw [scan_word ops w _ [] hsw hnm, List.nil_append, ih, flush_nonempty hne]; rfl
+      rw [scan_word ops w _ [] hsw hnm, List.nil_append, ih, flush_of_nonempty hne]; rfl
     cases n with
     | zero =>
       have hcur : cur = [] := by
